@@ -1,4 +1,5 @@
-(** C13 for a FAULTED parallel pass on graphs with binds (stamp form).
+(** C13 for a FAULTED parallel pass on graphs with binds (stamp form).  (One fault; any number of
+    faults and var writes: C13_binds_parallel_multi_fault.v, which subsumes this file.)
 
     [C13_binds_parallel_faults]: a parallel pass with one injected fault [(x, w, AFail k)] (function
     of a Map-like node or cutoff function; error or panic) that returns [Ok (s', e)], [e] not a
